@@ -299,6 +299,13 @@ func Register() {
 		e.P("def stapaChecked : Bool := %s", tl.LeanBool(has(cS, "if off+2 > len(payload)") && has(cS, "if off+int(nalSize) > len(payload)")))
 		e.P("def stapaRewritesNri : Bool := %s", tl.LeanBool(len(Assigns(fdS, "frame.Payload[0]")) > 0))
 		e.P("def fuaNeedsStart : Bool := %s", tl.LeanBool(elseIfReturn(fdF, "(fuHeader>>7)&1 == 1", "len(h264dp.fragments) == 0")))
+		keepsF := false
+		for _, a := range Assigns(fdF, "frame.Payload[0]") {
+			if strings.ToLower(strings.ReplaceAll(a, " ", "")) == "frame.payload[0]=(header&0xe0)|(fuheader&0x1f)" {
+				keepsF = true
+			}
+		}
+		e.P("def fuaKeepsF : Bool := %s", tl.LeanBool(keepsF))
 		e.P("def apChecked : Bool := %s", tl.LeanBool(has(c5S, "if off+2 > len(payload)") && has(c5S, "if off+int(nalSize) > len(payload)")))
 		e.P("def aacChecked : Bool := %s", tl.LeanBool(has(cA, "if len(payload) < 2") && has(cA, "if framesPayloadOffset > len(payload)") && has(cA, "if int(frameSize) > len(framesPayload)")))
 		e.P("def srChecked : Bool := %s", tl.LeanBool(has(cSR, "if len(data) >= 20 && data[1] == 200")))
